@@ -220,6 +220,16 @@ fn clean_body(rng: &mut Rng, n: usize, stamp: u64) -> Vec<u8> {
         }
         v.push(b);
     }
+    if n >= 14 && rng.chance(1, 6) {
+        // an emulation-prevention sequence (00 00 03 xx) inside the unit: legal payload, not a start code
+        let pos = rng.range(9, n as u64 - 5) as usize;
+        if v[pos - 1] != 0 {
+            v[pos] = 0;
+            v[pos + 1] = 0;
+            v[pos + 2] = 3;
+            v[pos + 3] = *rng.pick(&[1u8, 2, 3, 0x80]);
+        }
+    }
     v
 }
 
@@ -248,7 +258,11 @@ fn join_annexb(rng: &mut Rng, nals: &[Vec<u8>], decorate: bool) -> (Vec<u8>, Vec
     for (i, nal) in nals.iter().enumerate() {
         if decorate && rng.chance(1, 10) {
             // an empty unit: a start code directly followed by another start code
-            data.extend_from_slice(&[0, 0, 1]);
+            if rng.bool() {
+                data.extend_from_slice(&[0, 0, 1]);
+            } else {
+                data.extend_from_slice(&[0, 0, 0, 1]);
+            }
         }
         if rng.bool() || !decorate {
             data.extend_from_slice(&[0, 0, 0, 1]);
@@ -264,6 +278,13 @@ fn join_annexb(rng: &mut Rng, nals: &[Vec<u8>], decorate: bool) -> (Vec<u8>, Vec
             for _ in 0..z {
                 data.push(0);
                 unit.push(0);
+            }
+        } else if is_last && decorate && rng.chance(1, 12) {
+            // a start code with nothing after it at the very end: an empty unit, not stored
+            if rng.bool() {
+                data.extend_from_slice(&[0, 0, 1]);
+            } else {
+                data.extend_from_slice(&[0, 0, 0, 1]);
             }
         }
         stored.extend_from_slice(&(unit.len() as u32).to_be_bytes());
@@ -658,6 +679,82 @@ pub fn build_av1(rng: &mut Rng, shape: FrameShape, stamp: u64, payload: usize, d
     BuiltFrame { stored: data.clone(), data, has_config: has_config && conforming, is_key_picture: None }
 }
 
+/// The same OBU payloads in another framing: `mode` 0 pads every size field by one LEB128 byte,
+/// 1 sets the reserved header bit of the sequence header OBU, 2 pads only the sequence header's size.
+/// Returns None when the input does not parse as a chain of OBUs.
+pub fn av1_reframe(data: &[u8], mode: u8) -> Option<Vec<u8>> {
+    let mut out = Vec::with_capacity(data.len() + 8);
+    let mut i = 0;
+    let mut changed = false;
+    while i < data.len() {
+        let h = data[i];
+        let typ = (h >> 3) & 0x0f;
+        let ext = h & 4 != 0;
+        let has_size = h & 2 != 0;
+        let mut j = i + 1;
+        let extb = if ext {
+            let b = *data.get(j)?;
+            j += 1;
+            Some(b)
+        } else {
+            None
+        };
+        let (len, size_bytes) = if has_size {
+            let mut v: u64 = 0;
+            let mut n = 0;
+            loop {
+                let b = *data.get(j + n)?;
+                v |= ((b & 0x7f) as u64) << (7 * n);
+                n += 1;
+                if b & 0x80 == 0 {
+                    break;
+                }
+                if n >= 8 {
+                    return None;
+                }
+            }
+            (v as usize, n)
+        } else {
+            (data.len() - j, 0)
+        };
+        j += size_bytes;
+        if j + len > data.len() {
+            return None;
+        }
+        let payload = &data[j..j + len];
+        let this = match mode {
+            0 => has_size,
+            _ => typ == 1,
+        };
+        let mut hh = h;
+        if this && mode == 1 {
+            hh |= 1;
+            changed = true;
+        }
+        out.push(hh);
+        if let Some(b) = extb {
+            out.push(b);
+        }
+        if has_size {
+            let mut l = leb128(len as u64);
+            if this && mode != 1 && l.len() < 7 {
+                let last = l.len() - 1;
+                l[last] |= 0x80;
+                l.push(0);
+                changed = true;
+            }
+            out.extend(l);
+        }
+        out.extend_from_slice(payload);
+        i = j + len;
+    }
+    if changed {
+        Some(out)
+    } else {
+        None
+    }
+}
+
 // ---------------------------------------------------------------- VP9 (the form the library accepts)
 
 fn vp9_varuint(mut v: u32) -> Vec<u8> {
@@ -846,6 +943,8 @@ pub enum Mangle {
     BitFlip,
     Random,
     ZeroPayloadAdts,
+    /// a valid ADTS frame with ONE header field moved to an edge of its range
+    AdtsField,
 }
 
 pub fn mangle(rng: &mut Rng, good: &[u8], how: Mangle) -> Vec<u8> {
@@ -874,6 +973,55 @@ pub fn mangle(rng: &mut Rng, good: &[u8], how: Mangle) -> Vec<u8> {
         Mangle::Random => {
             let n = rng.range(1, 40) as usize;
             rng.bytes(n)
+        }
+        Mangle::AdtsField => {
+            let n = rng.range(0, 12) as usize;
+            let p = AdtsParams {
+                protection_absent: rng.bool(),
+                profile: rng.below(4) as u8,
+                sfi: rng.below(13) as u8,
+                channels: rng.range(1, 7) as u8,
+                payload: rng.bytes(n),
+                slack: if rng.chance(1, 4) { rng.range(1, 4) as usize } else { 0 },
+            };
+            let mut f = build_adts_raw(&p, rng);
+            let hdr = if p.protection_absent { 7usize } else { 9 };
+            let set_len = |f: &mut Vec<u8>, len: usize| {
+                f[3] = (f[3] & !3) | ((len >> 11) as u8 & 3);
+                f[4] = (len >> 3) as u8;
+                f[5] = (f[5] & 0x1f) | ((len as u8 & 7) << 5);
+            };
+            match rng.below(8) {
+                0 => {
+                    // declared frame length at the edges: below / at the header length, at / past the buffer
+                    let buf = f.len();
+                    let len = *rng.pick(&[0usize, 1, 6, 7, 8, 9, hdr - 1, hdr, hdr + 1, buf - 1, buf, buf + 1, 8191]);
+                    set_len(&mut f, len);
+                }
+                1 => f[2] = (f[2] & !0x3c) | ((rng.range(12, 15) as u8) << 2), // sampling index 12 (last valid) .. 15
+                2 => {
+                    // channel configuration 0 / 7
+                    let ch = *rng.pick(&[0u8, 7]);
+                    f[2] = (f[2] & !1) | (ch >> 2);
+                    f[3] = (f[3] & 0x3f) | ((ch & 3) << 6);
+                }
+                3 => f[1] ^= 1 << rng.range(1, 3), // layer bits / MPEG id
+                4 => f[1] ^= 1,                     // protection flag flipped under an unchanged length
+                5 => {
+                    // the buffer cut at the header edges
+                    let cut = *rng.pick(&[6usize, 7, 8, 9, hdr - 1, hdr]);
+                    f.truncate(cut.min(f.len()));
+                }
+                6 => {
+                    // header-only frame of the CRC form: length 9, and the lengths just below it
+                    f[1] &= !1;
+                    f.resize(9usize.max(f.len()), 0x5a);
+                    let len = *rng.pick(&[7usize, 8, 9]);
+                    set_len(&mut f, len);
+                }
+                _ => f[0] = *rng.pick(&[0xfeu8, 0x7f, 0x00]),
+            }
+            f
         }
         Mangle::ZeroPayloadAdts => {
             let p = AdtsParams {
